@@ -127,6 +127,9 @@ def run(model, col, tier, share=True):
     if vb is not None:
         # read with private / static helpers of the generator in place (`__GetOperationType(bi)`, `__GetBinaryOpCodeName(..)`)
         vb = _eh063(model, gv, vb, skip=("v_", "__PushValueOntoStack", "_GenerateWasmVisitor__PushValueOntoStack"))
+        from ..sem import expand_module_helpers as _xmh063
+
+        vb = _xmh063(model, GEN, vb, skip=("v_", "_GenerateConstant", "GetPass"))  # module-level helpers (`_OperandTypeOf(bi)`) as well
     # the operator table: the dict display (local, class-level or module-level) whose keys are IR opcodes and whose values are strings
     opmap = opnode = None
     mapname = None
